@@ -92,6 +92,7 @@ type Engine struct {
 	frozen    int
 	preWrites int
 	preWriteLog []string
+	preWriteIDs []int
 	curInstr  ssa.Instruction
 	depth     int
 	steps     int
